@@ -102,7 +102,7 @@ where
 
             // If we've got an error buffered already, we need to write it to the client
             // before we can do anything else.
-            if let Some((maybe_err, mut si)) = buffered_err.take() {
+            while let Some((maybe_err, mut si)) = buffered_err.take() {
                 if let Some(err) = maybe_err {
                     match si.poll_ready_unpin(cx) {
                         Poll::Ready(Ok(_)) => {
